@@ -509,6 +509,10 @@ def install(models, front=True):
             raise Panic(f"index out of bounds: the len is {hi - lo} but the index is {i}")
         return Ref(base, lo + i)
 
+    @R(r"^<Vec<.*> as AsRef<.*>>::as_ref$|^<Vec<.*> as Borrow<.*>>::borrow$|^<Vec<.*> as AsMut<.*>>::as_mut$|^<\[.*\] as AsRef<.*>>::as_ref$")
+    def _vec_asref(ex, c, a):
+        return a[0]
+
     @R(r"^<Vec<.*> as Deref(Mut)?>::deref(_mut)?$")
     def _vec_deref(ex, c, a):
         return a[0]
